@@ -20,10 +20,10 @@ log['suite_with_change'] = r.stdout.strip()[-300:]
 shutil.copy(os.path.join(seed, 'demo_test.go'), os.path.join(wt, 'zz_seed_demo_test.go'))
 r1 = sh("go test -count=1 -run 'TestSeeded' . 2>&1 | tail -3", cwd=wt)
 demo_fails_with = 'FAIL' in r1.stdout
-sh('git stash -q', cwd=wt)
+sh(['git', 'apply', '-R', os.path.join(seed, 'patch.diff')], cwd=wt)
 r2 = sh("go test -count=1 -run 'TestSeeded' . 2>&1 | tail -3", cwd=wt)
 demo_passes_without = r2.stdout.strip().startswith('ok') or '\nok' in r2.stdout
-sh('git stash pop -q', cwd=wt)
+sh(['git', 'apply', os.path.join(seed, 'patch.diff')], cwd=wt)
 os.remove(os.path.join(wt, 'zz_seed_demo_test.go'))
 print('suite passes with change:', suite_ok, '| demo fails with:', demo_fails_with, '| demo passes without:', demo_passes_without)
 if not (suite_ok and demo_fails_with and demo_passes_without):
